@@ -1001,6 +1001,9 @@ class TorControlProtocol(LineOnlyReceiver):
 
     def _accumulate_multi_response(self, line):
         "for FSM"
+        if line.startswith('..'):
+            # data lines are dot-stuffed on the wire (control-spec 2.4.1)
+            line = line[1:]
         if self.command and self.command[2] is not None:
             self.command[2](line)
 
